@@ -57,13 +57,49 @@ pub fn build_pass_1(
         }
     }
 
-    let ram_filling = data_offset - device.ram_start;
+    let ram_filling = match data_offset.checked_sub(device.ram_start) {
+        Some(ram_filling) => ram_filling,
+        None => bail!("data segment ends below the start of RAM"),
+    };
+
+    // pass 2 emits nothing beyond the memories of the device
+    if code_offset > device.flash_size {
+        bail!(
+            "Flash size overdue by {} words",
+            code_offset - device.flash_size
+        )
+    }
+    if eeprom_offset > device.eeprom_size {
+        bail!(
+            "Eeprom size overdue by {} bytes",
+            eeprom_offset - device.eeprom_size
+        )
+    }
+    if ram_filling > device.ram_size {
+        bail!("RAM size overdue by {} bytes", ram_filling - device.ram_size)
+    }
 
     Ok(BuildResultPass1 {
         segments,
         ram_filling,
         messages: parsed.messages,
     })
+}
+
+/// Advances an address counter by `count` units of `unit` size; fails instead of wrapping around
+pub(crate) fn advance(address: u32, count: u64, unit: u64, line: &CodePoint) -> Result<u32, Error> {
+    let by = match count.checked_mul(unit) {
+        Some(by) => by,
+        None => bail!("address space exceeded, {}", line),
+    };
+    let next = match by.checked_add(address as u64) {
+        Some(next) => next,
+        None => bail!("address space exceeded, {}", line),
+    };
+    if next > std::u32::MAX as u64 {
+        bail!("address space exceeded, {}", line);
+    }
+    Ok(next as u32)
 }
 
 fn pass_1_internal(
@@ -93,7 +129,8 @@ fn pass_1_internal(
             }
             Item::Instruction(op, _) => match segment.t {
                 SegmentType::Code => {
-                    cur_address += op.info(common_context).len;
+                    cur_address =
+                        advance(cur_address, op.info(common_context).len as u64, 1, line)?;
                     out_items.push((*line, item.clone()));
                 }
                 _ => bail!(
@@ -109,41 +146,46 @@ fn pass_1_internal(
                 DataDefine::Db => {
                     let mut items = items.clone();
 
-                    cur_address += match segment.t {
+                    let units = match segment.t {
                         SegmentType::Code => {
                             (if items.actual_len() % 2 == 1 {
                                 items.push(Operand::E(Expr::Const(0x0)));
                                 items.actual_len()
                             } else {
                                 items.actual_len()
-                            }) as u32
+                            }) as u64
                                 / 2
                         }
-                        SegmentType::Eeprom => items.actual_len() as u32,
+                        SegmentType::Eeprom => items.actual_len() as u64,
                         _ => bail!(".db are not allowed in data segment, {}", line),
                     };
+                    cur_address = advance(cur_address, units, 1, line)?;
 
                     out_items.push((*line, Item::Data(DataDefine::Db, items)));
                 }
                 DataDefine::Dw | DataDefine::Dd | DataDefine::Dq => {
-                    let item_size = match item_type {
+                    let item_size: u64 = match item_type {
                         DataDefine::Dw => 2,
                         DataDefine::Dd => 4,
                         DataDefine::Dq => 8,
                         _ => 0,
                     };
-                    cur_address += match segment.t {
-                        SegmentType::Code => items.len() as u32 * (item_size / 2),
-                        SegmentType::Eeprom => items.len() as u32 * item_size,
+                    let unit: u64 = match segment.t {
+                        SegmentType::Code => item_size / 2,
+                        SegmentType::Eeprom => item_size,
                         _ => bail!(".dw are not allowed in data segment, {}", line),
                     };
+                    cur_address = advance(cur_address, items.len() as u64, unit, line)?;
 
                     out_items.push((*line, item.clone()));
                 }
             },
             Item::ReserveData(size) => match segment.t {
                 SegmentType::Data | SegmentType::Eeprom => {
-                    cur_address += *size as u32;
+                    if *size < 0 {
+                        bail!(".byte needs a size that is not negative, {}", line);
+                    }
+                    cur_address = advance(cur_address, *size as u64, 1, line)?;
                     if segment.t == SegmentType::Eeprom {
                         out_items.push((*line, item.clone()));
                     }
